@@ -1,4 +1,5 @@
 import Solvor.Gen.Kernels
+import Solvor.Gen.FenwickKernels
 /-!
 Ds/Fenwick: model of `FenwickTree` (solvor/utils/data_structures.py) over `Int`.
 
